@@ -61,6 +61,29 @@ def subset(rng, seq, lo=0, hi=None):
     return rng.sample(list(seq), k)
 
 
+LABELS_BAD = ["GA", "Beta", "Beta-1", "RC-1", "RC-1.0.1", "beta-1.0", 5, "RC-1.a", "RC-1-1.0", "RC--1.0", "Beta-x-1.0", "RC-1.0-2.0",
+              "Alpha-Beta-1.0", "RC-1.0 ", " RC-1.0", "RC_1.0", "XRC-1.0", "RC-1.", "RC-.5", "RC-1,0"]
+
+
+def foreign_arches(parent_arches, own=()):
+    """architectures a child of a parent with `parent_arches` must not have: an unrelated one, and names that CONTAIN or ARE
+    CONTAINED IN one of the parent's (ppc64 / ppc64le, s390 / s390x)"""
+    out = [a for a in ARCHES if a not in parent_arches][:1]
+    for a in parent_arches:
+        for cand in (a[:-1], a[:-2], a + "le", a + "x", a.upper(), a + " "):
+            if cand and cand not in parent_arches and cand not in own and cand not in out:
+                out.append(cand)
+    return out
+
+
+# integers a double cannot hold exactly, beyond 2**63 / 2**64, and the first two-digit / three-digit numbers
+BIG_INTS = [2 ** 53 + 1, 2 ** 60 + 12345, 2 ** 63 + 7, 2 ** 64 + 1, 10 ** 20 + 3]
+
+
+def anyint(rng, usual, big=0.12):
+    return pick(rng, BIG_INTS) if rng.random() < big else rng.choice(usual)
+
+
 def date8(rng):
     if rng.random() < 0.1:
         return rng.choice(["00000000", "99999999", "20241331", "10000101"])     # "any 8-digit date"
